@@ -407,6 +407,9 @@ func (env *Env) eval(x ast.Expr) Val {
 		return e.loadPtr(env.st, base, pt.Elem())
 	case *ast.IndexExpr:
 		base := env.eval(x.X)
+		if _, isMap := base.T.Underlying().(*types.Map); isMap {
+			return env.indexVal(base, env.eval(x.Index), x)
+		}
 		idx := env.evalAs(x.Index, types.Typ[types.Int])
 		if _, _, isInt := intInfo(idx.T); isInt {
 			idx = e.convert(idx, types.Typ[types.Int])
@@ -640,6 +643,12 @@ func (env *Env) indexVal(base, idx Val, x ast.Node) Val {
 		if a, ok := u.Elem().Underlying().(*types.Array); ok {
 			return e.loadElem(env.st, base.C[0], i, a.Elem())
 		}
+	}
+	if mt, ok := base.T.Underlying().(*types.Map); ok {
+		// map lookup by key (contracts use constant string keys)
+		fr := &Frame{e: e}
+		v, _ := fr.mapLookup(env.st, base, idx, mt.Elem())
+		return v
 	}
 	if base.T == tStream {
 		e.noteRead(i)
